@@ -46,6 +46,7 @@ MIN_REACH = {
     "resows_refused_for_their_shape": {"quick": 50, "thorough": 600},
     "crops_whose_function_is_not_saved": {"quick": 12, "thorough": 300},
     "crops_of_ten_and_more_batches": {"quick": 15, "thorough": 300},
+    "subsets_grown_from_a_generator_or_an_array_of_ids": {"quick": 40, "thorough": 800},
     "pooled_grows_around_a_resow_that_replaced_the_function": {"quick": 12, "thorough": 200},
 }
 TIME_BUDGET = {"quick": 300, "thorough": 3000}
@@ -295,7 +296,12 @@ def run_case(ctx, case):
                         xyzpy.grow(i, crop=crop, verbosity=0)
                 elif op == "grow_subset":
                     ids = rng.sample(sorted(allb), rng.randint(1, B))
-                    crop.grow(ids)
+                    # the ids as a list, a tuple, a one-shot generator (crop.grow(i for i in ... if ...)) or a numpy array
+                    how_ = (len(ids) + case["hseed"]) % 4
+                    if how_ in (2, 3):
+                        ctx.count("subsets_grown_from_a_generator_or_an_array_of_ids")
+                    import numpy as _np
+                    crop.grow([ids, tuple(ids), (i_ for i_ in list(ids)), _np.array(ids)][how_])
                 elif op == "grow_missing":
                     ids = sorted(allb - finished)
                     crop.grow_missing()
@@ -375,7 +381,8 @@ def run_case(ctx, case):
                             badset.add(i)
                     got_bad = crop.check_bad()
                     ctx.count("check_bad_calls")
-                    if sorted(int(x) for x in got_bad) != sorted(badset):
+                    # (the documented return: "the bad batch numbers" - what can be handed to grow() as they are)
+                    if sorted(got_bad, key=repr) != sorted(badset, key=repr) or any(type(x) is not int for x in got_bad):
                         ctx.violation(dict(case, at=list(done_hist)), "check_bad reported %r, the bad results are %s" % (got_bad, sorted(badset)),
                                       dict(sig, oracle="check_bad"))
                         nviol += 1
@@ -471,6 +478,13 @@ def run_case(ctx, case):
             ctx.count("grow_events_recorded")
             if outcome == "returned":
                 finished.add(i)
+        # a grow that returned has grown every batch it was asked for
+        if err is None and op in ("grow", "grow_fn", "grow_subset", "grow_missing") and not mpi_var:
+            not_grown = sorted(set(ids) - {i for (i, o_, _) in rec.events[ev0:] if o_ == "returned"})
+            if not_grown:
+                ctx.violation(dict(case, at=list(done_hist)), "%s returned normally, but batches %s of the %s it was asked for were never grown" % (
+                    op, not_grown, sorted(ids)), dict(sig, oracle="asked-for-is-grown", op=op))
+                nviol += 1
         # a grow writes only its own result file(s)
         after = listing()
         if op in ("grow", "grow_fn", "grow_subset", "grow_missing", "grow_fail", "grow_unpicklable", "resow_fn_pooled"):
